@@ -59,7 +59,10 @@ def model_check(d, name, prog, liveness=False, timeout=1800, confluence=False, o
     return common.run_tlc(os.path.join(d, mc + '.tla'), os.path.join(d, mc + '.cfg'), timeout=timeout, metatag=mc, workers=workers)
 
 
-def strict_validate(d, traces, tag='strict', chunk=200, dump=False):
+UNDECIDED = set()
+
+
+def strict_validate(d, traces, tag='strict', chunk=60, dump=False, tlc_timeout=420):
     """Returns (accepted set of indexes into traces, reached dict, states, transitions)."""
     common.put_spec(d, *[os.path.join('engine', f_) for f_ in ('MistralEngine.tla', 'EngineTrace.tla')])
     acc, reached = set(), {}
@@ -81,7 +84,16 @@ def strict_validate(d, traces, tag='strict', chunk=200, dump=False):
         with open(cfgp, 'w') as fh:
             fh.write('SPECIFICATION TSpec\nCONSTANT OpBudget = 1000\nCONSTANT DupBudget = 1000\nCONSTANT NoopOps = TRUE\nCONSTANT OpKinds <- AllOpKinds\nCONSTRAINT %s\nCHECK_DEADLOCK FALSE\n'
                      % ('DumpReport' if dump else 'Report'))
-        r = common.run_tlc(mod, cfgp, workers=1, env={'TRACE_FILE': tf}, timeout=3000, metatag='engstrict%s%d' % (tag, k), heap='3g')
+        try:
+            r = common.run_tlc(mod, cfgp, workers=1, env={'TRACE_FILE': tf}, timeout=tlc_timeout, metatag='engstrict%s%d' % (tag, k), heap='3g')
+        except common.MachineryError as e:
+            if 'TLC timeout' not in str(e):
+                raise
+            # the unlogged choices of some run of this chunk made the search too large: those runs stay undecided (neither
+            # accepted nor a divergence)
+            for i in range(len(part)):
+                UNDECIDED.add(k * chunk + i)
+            return set(), {}, 0, 0
         if dump:
             open(os.path.join(d, 'strict_%s_%d.out' % (tag, k)), 'w').write(r.out)
         if not r.finished:
